@@ -224,6 +224,26 @@ def main():
             record("none-rule-plus-flow", name, onp.shape(z3) == onp.shape(c0) and bool(onp.all(onp.asarray(z3) == 3.0)), repr(z3))
         except Exception as ex:
             record("none-rule-raised", name, False, repr(ex))
+    # ... and in forward mode: an exact zero of the OUTPUT's space, whatever the space of that argument
+    from autograd.extend import defjvp as _defjvp
+    _defjvp(gate, None, lambda g, ans, c, a: g * onp.where(onp.asarray(c) > 0, 1.0, 2.0))
+    none_fwd = [
+        ("where: condition (3,1) against (3,4) branches", lambda c: anp.where(c, big34, -big34), onp.array([[1.0], [0.0], [2.0]]), (3, 4)),
+        ("where: condition (4,) against (3,4) branches", lambda c: anp.where(c, big34, 2.0), onp.array([1.0, 0.0, 0.0, 3.0]), (3, 4)),
+        ("where: scalar condition", lambda c: anp.where(c, big34, -big34), 1.0, (3, 4)),
+        ("where: condition (3,4), scalar branches", lambda c: anp.where(c, 1.0, -1.0), big34 - 4.0, (3, 4)),
+        ("user primitive, None rule, argument (3,1) output (3,4)", lambda c: gate(c, big34), onp.array([[1.0], [-1.0], [2.0]]), (3, 4)),
+        ("user primitive, None rule, scalar argument", lambda c: gate(c, big34), 0.5, (3, 4)),
+    ]
+    for name, fn, c0, oshape in none_fwd:
+        try:
+            t = make_jvp(fn)(c0)(onp.ones(onp.shape(c0)) * 1.0 if onp.shape(c0) else 1.0)[1]
+            record("none-rule-zero-fwd", name, not has_box(t) and onp.shape(t) == oshape and bool(onp.all(onp.asarray(t) == 0)), repr(t))
+            # ... next to a tangent that does flow
+            t2 = make_jvp(lambda c: fn(c) + anp.sum(c) * 3.0)(c0)(onp.ones(onp.shape(c0)) * 1.0 if onp.shape(c0) else 1.0)[1]
+            record("none-rule-plus-flow-fwd", name, onp.shape(t2) == oshape and bool(onp.all(onp.asarray(t2) == 3.0 * max(1, onp.size(c0)))), repr(t2))
+        except Exception as ex:
+            record("none-rule-fwd-raised", name, False, repr(ex))
     # ---- the registered non-differentiable functions ----
     # the non-differentiable function set is part of the property, not read off the implementation: the pinned
     # tree's list, plus whatever the current tree adds to it
@@ -419,6 +439,10 @@ def main():
     convs = {"x.astype(bool)": lambda m, x: x.astype(bool), "x.astype(int)": lambda m, x: x.astype(int), "x.astype('int32')": lambda m, x: x.astype("int32"),
              "x.astype('uint8')": lambda m, x: x.astype("uint8"), "array(x, dtype=bool)": lambda m, x: m.array(x, dtype=bool),
              "array(x, dtype=int)": lambda m, x: m.array(x, dtype=int), "array(x, int)": lambda m, x: m.array(x, int),
+             "array([x0,x1,x2], int)": lambda m, x: m.array([x[0], x[1], x[2]], int),
+             "array([x0,x1,x2], dtype=int)": lambda m, x: m.array([x[0], x[1], x[2]], dtype=int),
+             "array([x0,x1,x2], bool)": lambda m, x: m.array([x[0], x[1], x[2]], bool),
+             "array((x0,x1,x2), 'int64')": lambda m, x: m.array((x[0], x[1], x[2]), "int64"),
              "full((3,), x[0], dtype=int)": lambda m, x: m.full((3,), x[0], dtype=int), "full((3,), x[1], dtype=bool)": lambda m, x: m.full((3,), x[1], dtype=bool)}
     for cname, cf in convs.items():
         for x0 in (onp.array([-1.5, 0.0, 2.5]), onp.array([3.0, 0.5, -2.0])):
